@@ -330,6 +330,14 @@ class Translator:
         if isinstance(tv, tuple) and tv[0] == "list":
             if isinstance(sl, ast.Slice):
                 lo, hi, st = sl.lower, sl.upper, sl.step
+                for b_ in (lo, hi):
+                    # a bound that is a DIFFERENCE may be negative, and a negative bound wraps around in Python (l[c - p:] with c < p is l[-(p - c):]); the natural-number
+                    # model truncates it to 0 - not the same list.  Only `-e` (handled below as lastn) and differences of the form `len(l) - e` ... are given a meaning.
+                    def _len_minus(x_):        # len(<list>) - e : non-negative under the theorems' own hypothesis e <= size (C16: 0 <= n <= size)
+                        return isinstance(x_, ast.BinOp) and isinstance(x_.op, ast.Sub) and isinstance(x_.left, ast.Call) and ast.unparse(x_.left.func) == "len"
+                    if b_ is not None and not (isinstance(b_, ast.UnaryOp) and isinstance(b_.op, ast.USub)) \
+                            and any(isinstance(x_, ast.BinOp) and isinstance(x_.op, ast.Sub) and not _len_minus(x_) for x_ in ast.walk(b_)):
+                        raise Unsupported(f"slice bound with a subtraction: {ast.unparse(b_)[:40]}")
                 if st is not None:
                     if lo is None and hi is None and ast.unparse(st) == "-1": return (f"(rev {v})", tv)   # l[::-1]
                     raise Unsupported("slice step")
